@@ -215,10 +215,16 @@ pub fn run_net(cfg: &NetCfg) -> NetOutcome {
         let mut sid = 0u64;
         let mut handles: Vec<(usize, u64)> = vec![];
         let mut joins = vec![];
-        for (a, b) in edges2.iter().copied() {
+        for (ei, (a, b)) in edges2.iter().copied().enumerate() {
             let mut lc = LinkConfig::new(Engine::Des);
             lc.preempt_den = 0;
             lc.latency_us = if cfg.latency { vec![0, 200, 2_000, 20_000, 80_000] } else { vec![0] };
+            if cfg.bulk_peer.is_some() {
+                // Bulk scenario: the link of the bulk peer is fast, every other link slow, so that
+                // the neighbour's other sessions are still in their sync phase while the bulk
+                // arrives and is forwarded to their live-mode channels.
+                lc.latency_us = if ei == 0 { vec![0, 200] } else { vec![80_000, 200_000] };
+            }
             let (a_tx, b_rx) = link::<Msg>("a->b", lc.clone());
             let (b_tx, a_rx) = link::<Msg>("b->a", lc);
             for (me, other, tx, rx) in [(a, b, a_tx, a_rx), (b, a, b_tx, b_rx)] {
